@@ -254,13 +254,18 @@ def _revealed(h: HState):
 
 
 # -----------------------------------------------------------------------------------------------
-def boot_and_check(meta: dict, cfg: dict, history: list, prop="C11") -> list[Failure]:
-    """Start the real server on a copy of the crash snapshot and interrogate it."""
+def boot_and_check(meta: dict, cfg: dict, history: list, prop="C11", drop: bool = False) -> list[Failure]:
+    """Start the real server on a copy of the crash snapshot and interrogate it.
+    drop: the MH delivery agent does not know the server died: it drops one message into every mailbox whose UIDs a
+    client has seen *before* the server is started again (that message must not inherit a revealed UID)."""
     fails: list[Failure] = []
+    DROPPED = "dzdown"
 
     def fail(rule, details, expected=None, observed=None):
         if meta.get("phase"):
             details = dict(details, phase=meta["phase"])
+        if drop:
+            details = dict(details, delivered_while_down=True)
         fails.append(Failure(prop, rule, dict(details, point=meta["label"].split(":")[0] + ":" + meta["label"].split(":")[1] if ":" in meta["label"] else meta["label"],
                                              op=(meta["event"] or {}).get("op"), acked=meta["acked"]),
                              {"driver": "k", "cfg": cfg.get("name"), "history": history, "point": meta["idx"], "label": meta["label"]},
@@ -274,6 +279,11 @@ def boot_and_check(meta: dict, cfg: dict, history: list, prop="C11") -> list[Fai
             w.syn_mtime[os.path.normpath(os.path.join(str(w.maildir), rel))] = v
         w.tick = max([w.tick] + list(meta["syn_mtime"].values()))
         try:
+            if drop:
+                for nm_ in sorted(meta["revealed_live"]):
+                    folder_ = "inbox" if nm_ == "INBOX" else nm_
+                    if os.path.isdir(w.folder_path(folder_)):
+                        w.deliver(folder_, msgs.make(DROPPED, crlf=False), unseen=True, mtime=msgs.idate_epoch(9000))
             try:
                 w.start()
             except BaseException as e:  # noqa: B036
@@ -389,7 +399,7 @@ def boot_and_check(meta: dict, cfg: dict, history: list, prop="C11") -> list[Fai
                     fail("C11.acknowledged-message-lost", {"mbox": "INBOX" if nm == "INBOX" else "other"}, must, got_cids)
                 if extra:
                     fail("C11.expunged-message-back", {"mbox": "INBOX" if nm == "INBOX" else "other"}, sorted(may), got_cids)
-                dup = [c for c in set(got_cids) if c is not None and got_cids.count(c) > max(ca.count(c), cb.count(c))]
+                dup = [c for c in set(got_cids) if c is not None and c != DROPPED and got_cids.count(c) > max(ca.count(c), cb.count(c))]
                 if dup:
                     fail("C11.message-duplicated", {"mbox": "INBOX" if nm == "INBOX" else "other"}, None, got_cids)
                 uids = [u for u, _, _ in got]
@@ -471,6 +481,11 @@ def crash_history(unit):
                 continue
             booted += 1
             fs = boot_and_check(meta, cfg, history)
+            if not fs and meta.get("revealed_live"):
+                booted += 1
+                fs = boot_and_check(meta, cfg, history, drop=True)
+                for f in fs:
+                    f.replay["drop"] = True
             for f in fs:
                 f.replay["cfg_ref"] = list(cfg_ref)
             fails.extend(fs)
